@@ -20,8 +20,8 @@ RULE = ("1-8 stations registered in random order, then 1-25 add/remove/update/qu
         ">=1 remove or update and >=1 composed Current; distinct = distinct operation/expression-shape sequence")
 PROBES = ["composed_current", "scalar_multiple_operand", "remove", "update", "update_new_name", "rejected_unknown_station",
           "rejected_unknown_name", "late_register_rejected", "subset_query_reordered", "time_subset_query",
-          "duplicate_name", "unnamed", "series_leaf"]
-FAULT_DIMENSION = "rejected operations only (unknown station / unknown name / late register_evse); weakest sense in which the family applies"
+          "duplicate_name", "unnamed", "series_leaf", "json_restart"]
+FAULT_DIMENSION = "restart (network saved to JSON and loaded mid-history); rejected operations (unknown station / unknown name / late register_evse); weakest sense in which the family applies"
 REAL_VS_STUB = "real: ChargingNetwork, Current, EVSE; ours: dict-based reference network (refnet)"
 ASSUMPTIONS = ["row order is only required to be aligned with constraint_index (the position of an updated row is not constrained)",
                "names ending in _v2 are never generated; a duplicate name is generated at most once per name"]
@@ -159,8 +159,10 @@ def gen(rs, tier):
         elif k < 0.95:
             ops.append({"op": "query", "seed": r.randrange(10 ** 6), "subset": r.random() < 0.7, "times": r.random() < 0.5,
                         "linear": r.random() < 0.25})
-        else:
+        elif k < 0.975:
             ops.append({"op": "late_register"})
+        else:
+            ops.append({"op": "roundtrip"})      # restart: the network is saved to JSON, loaded, and the history continues
     return {"seed": rs, "stations": stations, "phases": phases, "ops": ops}
 
 
@@ -312,6 +314,14 @@ def check(sc):
                             out.add("C12/register_rejected_without_constraints", "op %d" % i)
                             break
                         out.probe("late_register_rejected")
+                elif o == "roundtrip":
+                    nw = sut.ChargingNetwork.from_json(nw.to_json())
+                    out.probe("json_restart")
+                    log.append(("roundtrip",))
+                    if list(nw.station_ids) != stations:
+                        out.add("C12/station_order_after_load", "op %d: loaded network lists stations %s, registered order %s"
+                                % (i, list(nw.station_ids), stations))
+                        break
                 elif o == "query":
                     if not rows:
                         continue
